@@ -62,16 +62,16 @@ package histutil
 //@   log Cursor.Prev Cursor.Next Cursor.Get
 //@   exit [shared-part-continues-in-shared] old(c.useShared) ==> ncalls == 1 && callis(0, "Cursor.Prev") && callfn(0) === recvid(old(c.shared)) && c.useShared
 //@   exit [session-part-first] !old(c.useShared) ==> callis(0, "Cursor.Prev") && callfn(0) === recvid(old(c.session)) && callis(1, "Cursor.Get") && callfn(1) === recvid(old(c.session))
-//@   exit [hand-off-when-session-is-exhausted] !old(c.useShared) && callerr(1) === ErrEndOfHistory ==> ncalls == 3 && callis(2, "Cursor.Prev") && callfn(2) === recvid(old(c.shared)) && c.useShared
-//@   exit [no-hand-off-otherwise] !old(c.useShared) && !(callerr(1) === ErrEndOfHistory) ==> ncalls == 2 && !c.useShared
+//@   exit [hand-off-when-session-is-exhausted] !old(c.useShared) && callerr(1) == ErrEndOfHistory ==> ncalls == 3 && callis(2, "Cursor.Prev") && callfn(2) === recvid(old(c.shared)) && c.useShared
+//@   exit [no-hand-off-otherwise] !old(c.useShared) && callerr(1) != ErrEndOfHistory ==> ncalls == 2 && !c.useShared
 
 //@ func hybridStoreCursor.Next
 //@   props C29
 //@   log Cursor.Prev Cursor.Next Cursor.Get
 //@   exit [session-part-continues-in-session] !old(c.useShared) ==> ncalls == 1 && callis(0, "Cursor.Next") && callfn(0) === recvid(old(c.session)) && !c.useShared
 //@   exit [shared-part-first] old(c.useShared) ==> callis(0, "Cursor.Next") && callfn(0) === recvid(old(c.shared)) && callis(1, "Cursor.Get") && callfn(1) === recvid(old(c.shared))
-//@   exit [hand-back-when-shared-is-exhausted] old(c.useShared) && callerr(1) === ErrEndOfHistory ==> ncalls == 3 && callis(2, "Cursor.Next") && callfn(2) === recvid(old(c.session)) && !c.useShared
-//@   exit [no-hand-back-otherwise] old(c.useShared) && !(callerr(1) === ErrEndOfHistory) ==> ncalls == 2 && c.useShared
+//@   exit [hand-back-when-shared-is-exhausted] old(c.useShared) && callerr(1) == ErrEndOfHistory ==> ncalls == 3 && callis(2, "Cursor.Next") && callfn(2) === recvid(old(c.session)) && !c.useShared
+//@   exit [no-hand-back-otherwise] old(c.useShared) && callerr(1) != ErrEndOfHistory ==> ncalls == 2 && c.useShared
 
 //@ func hybridStoreCursor.Get
 //@   props C29
